@@ -12,7 +12,8 @@ ID = 'C13'
 RULE = ('histories over an alphabet of 17 mutators (add_atom, add_bond 1/2, delete_atom, delete_bond, charge / radical '
         'change inside `with mol:`, mixed transaction (structural edits + partial remap + label edits in one block, 8 shapes), '
         'raising transaction, remap, copy+edit, substructure+edit, |, |=, kekule/thiele, '
-        'clean_stereo, coordinate edit on a copy) with a reader of derived values (str, hash, sssr, atoms_order, brutto, '
+        'clean_stereo, coordinate edit on a copy; in the random histories also standardize / neutralize / clean_isotopes / '
+        'fix_resonance in place and isotope edits) with a reader of derived values (str, hash, sssr, atoms_order, brutto, '
         'rings_count, components, fingerprints, stereo views ...) interposed before every mutator: exhaustive sequences up '
         'to length 3 (quick) / 4 (thorough) on 6 seed molecules + long random histories on corpus molecules; after every '
         'step the cache-coherence shadow compares each derived view with a cache-free rebuild (fresh container, same atoms '
@@ -428,6 +429,10 @@ def run_prim(mol, st):
         raise KeyError(name)
 
 
+# in-place normalisers and isotope edits take part in the random histories only (the exhaustive alphabet stays at 17)
+OPS_RANDOM = OPS + ['standardize', 'neutralize', 'clean_isotopes', 'fix_resonance', 'txn_isotope', 'txn_isotope', 'txn_charge', 'txn_radical']
+
+
 def kekule_state(mol):
     return not any(b.order == 4 for *_, b in mol.bonds())
 
@@ -615,6 +620,20 @@ def apply(ctx, mol, op, k, hist):
         mol.clean_stereo()
         hist.append(('clean_stereo',))
         return mol, True
+    if op in ('standardize', 'neutralize', 'clean_isotopes', 'fix_resonance'):
+        if any(x.implicit_hydrogens is None for _, x in mol.atoms()):
+            return mol, False       # normalisation is defined for valence-valid molecules
+        hist.append((op,))
+        getattr(mol, op)()
+        ctx.count('normalisers.applied')
+        return mol, True
+    if op == 'txn_isotope':
+        isos = sorted(mol._atoms[a].isotopes_masses)
+        iso = None if mol._atoms[a].isotope else isos[k % len(isos)]
+        hist.append(('txn_isotope', a, iso))
+        with mol:
+            mol.atom(a).isotope = iso
+        return mol, True
     raise KeyError(op)
 
 
@@ -664,7 +683,7 @@ def run_history(ctx, seed_smiles, ops, readers, ks):
             ctx._vc = sum(v['count'] for v in ctx.violations.values())
             return
     key = (seed_smiles, tuple(ops), tuple(ks))
-    nontriv = nmut >= 2 and any(o in ('delete_atom', 'delete_bond', 'txn_raise', 'txn_charge', 'txn_radical', 'txn_multi', 'txn_seq') for o in ops)
+    nontriv = nmut >= 2 and any(o in ('delete_atom', 'delete_bond', 'txn_raise', 'txn_charge', 'txn_radical', 'txn_multi', 'txn_seq', 'txn_isotope') for o in ops)
     ctx.case(key=key, nontrivial=nontriv, n=0,
              sample={'seed': seed_smiles, 'history': hist} if ctx.rng.random() < .0008 else None)
 
@@ -705,7 +724,7 @@ def worker(ctx):
         except Exception:
             continue
         L = cfg['random_len']
-        ops = [rng.choice(OPS) for _ in range(L)]
+        ops = [rng.choice(OPS_RANDOM) for _ in range(L)]
         readers = [rng.choice(READERS + [None]) for _ in range(L)]
         ks = [rng.randrange(1000) for _ in range(L)]
         ctx.count('histories.random')
@@ -764,6 +783,11 @@ def replay(ctx, mechanism, w):
                 mol.kekule()
             elif name == 'clean_stereo':
                 mol.clean_stereo()
+            elif name in ('standardize', 'neutralize', 'clean_isotopes', 'fix_resonance'):
+                getattr(mol, name)()
+            elif name == 'txn_isotope':
+                with mol:
+                    mol.atom(step[1]).isotope = step[2]
             elif name == 'iunion':
                 mol |= smiles(step[1])
             elif name in ('copy_edit', 'sub_edit', 'union'):
